@@ -210,11 +210,11 @@ META = {
     ),
     "C17": _m(
         "one evaluation = one simulated run: a two-slice template of 1..3 variables per slice (cardinality 2..3, random intra-slice DAG, inter-slice edges in three styles: "
-        "persistence X_t -> X_t+1, persistence plus cross edges, arbitrary), strictly positive tables, built in PRNG-chosen edge / CPD insertion orders; ONE DBNInference "
+        "persistence X_t -> X_t+1, persistence plus cross edges, arbitrary), tables with exact zeros / deterministic columns at a PRNG rate, built in PRNG-chosen edge / CPD insertion orders; ONE DBNInference "
         "object answers 1..4 questions (query = smoothing, forward_inference = filtering, backward_inference) on variables in slices 0..3 (4 thorough) with 0..3 evidence "
         "items anywhere incl. interface nodes, then get_constant_bn.  Templates outside the domain of the interface algorithm (a variable missing from the 1.5-slice "
         "network, disconnected slice graphs) are counted and skipped.  Oracle: brute-force joint of the network unrolled to the needed number of slices (<= 70000 cells); "
-        "the constant network's CPDs equal the template's.  Non-trivial = at least one checked question; distinct = distinct trace digest; order signature = cliques of "
+        "the constant network's CPDs equal the template's.  Strict everywhere except the one open finding (answers below another queried slice s >= 1 in smoothing).  Non-trivial = at least one checked question; distinct = distinct trace digest; order signature = cliques of "
         "the 1.5-slice junction tree.",
         "faults: relabel / insertion order (hash-order-driven junction-tree layout and _get_clique(...)[0]), one engine reused for the whole history",
         ["interface_nodes_1", "interface_nodes_2"],
